@@ -420,14 +420,19 @@ void make_inputs(const ProgMeta &meta, uint64_t dataseed, int nreq, RunData &d) 
       }
     }
   }
-  d.exstyle = r.chance(1, 2) ? 1 : 0;
+  d.exstyle = (int)r.below(5) < 2 ? 1 : (int)r.below(3) == 0 ? 2 : 0;
   d.exgarbage = r.next();
 }
 
 void run_with(OrcProgram *prog, OrcCode *code, const ProgMeta &meta, RunMode mode, RunData &d) {
   OrcExecutor exs;
   OrcExecutor *ex = &exs;
-  if (d.exstyle == 1) {
+  OrcExecutor *heap_ex = nullptr;
+  if (d.exstyle == 2 && prog) {
+    // the documented way: a heap executor from orc_executor_new(), released by orc_executor_free()
+    heap_ex = orc_executor_new(prog);
+    ex = heap_ex;
+  } else if (d.exstyle == 1) {
     // uninitialised executor, as in every orcc-generated wrapper (`OrcExecutor _ex, *ex = &_ex;`)
     uint64_t g = d.exgarbage;
     unsigned char *raw = (unsigned char *)ex;
@@ -468,6 +473,7 @@ void run_with(OrcProgram *prog, OrcCode *code, const ProgMeta &meta, RunMode mod
     }
   }
   for (int i = 0; i < 4; i++) d.acc[i] = ex->accumulators[i];
+  if (heap_ex) orc_executor_free(heap_ex);
 }
 
 std::string compare_outputs(const ProgMeta &meta, const RunData &a, const RunData &b) {
